@@ -118,6 +118,33 @@ def _task(task):
             elif shown != [100 + i for i in range(min(n, 20))]:  # --max-items defaults to 20: longer lists are elided by design
                 t.violation({"kind": "parse-all-wrong"}, {"cmd": "parse", "n": n}, expected=[100 + i for i in range(min(n, 20))], observed=shown[:24])
             os.unlink(path)
+        # --skip-header-bytes: files whose packets are preceded by 4 foreign bytes, complete and with a tail cut short by 1..5 bytes
+        if n in task.get("skip_ns", (0, 3, 12)):
+            for cut in (0, 1, 3, 4, 5):
+                recs = [bytes([0xF0 + (i % 8)] * 4) + p for i, p in enumerate(pkts)]
+                extra = (b"\xEE\xEE\xEE\xEE" + framing.mk_packet(b"\x01\x02\x03\x04\x05\x06", apid=999, seqcount=1))
+                data = b"".join(recs) + (extra[:-cut] if cut else b"")
+                path = os.path.join(work, f"c19_{os.getpid()}_{n}_skip.bin")
+                with open(path, "wb") as f:
+                    f.write(data)
+                code, exc, out = invoke(["parse", path, xtce, "--skip-header-bytes", "4"])
+                t.evals += 1
+                shown = [int(x) for x in re.findall(r"'PKT_APID':\s*(\d+)", out)]
+                want = [100 + i for i in range(n)][:20]
+                case = {"cmd": "parse --skip-header-bytes 4", "n": n, "tail_cut": cut}
+                if code != 0 or exc:
+                    t.violation({"kind": "cli-crash", "cmd": "parse-skip", "exit": str(code), "exc": exc}, case, observed=out[-300:])
+                elif shown != want:
+                    t.violation({"kind": "parse-skip-wrong"}, case, expected=want, observed=shown[:24], note="packets shown with --skip-header-bytes differ from the complete records in the file")
+                code, exc, out = invoke(["parse", path, xtce, "--skip-header-bytes", "4", "--packet", str(n)])
+                t.evals += 1
+                shown = [int(x) for x in re.findall(r"'PKT_APID':\s*(\d+)", out)]
+                if code != 0 or exc:
+                    t.violation({"kind": "cli-crash", "cmd": "parse-skip-index", "exit": str(code), "exc": exc}, case, observed=out[-300:])
+                elif shown or not out.strip():
+                    t.violation({"kind": "parse-out-of-range-not-reported", "skip": True}, {**case, "index": n}, observed=out[-300:])
+                t.nontrivial += 1
+                os.unlink(path)
     os.unlink(xtce)
     t.sample({"n": task["ns"][0], "commands": ["describe-packets", "parse --packet 0..n+1", "parse"], "truncated_tails": [None, 3, 7]})
     return t
@@ -129,7 +156,7 @@ def run(ctx):
     coverage = {
         "exhaustive": True,
         "bound": (f"files of n = {'0..13, 22, 25' if ctx.quick else '0..26 and 40'} packets, each also with 3 and 7 trailing bytes of an incomplete packet; "
-                  "describe-packets on each; parse --packet i for every i in 0..n+1; parse without index"),
+                  "describe-packets on each; parse --packet i for every i in 0..n+1; parse without index; parse --skip-header-bytes 4 on files with 4 foreign bytes per record, complete and cut short by 1..5 bytes"),
         "rule": "one evaluation = one CLI invocation through click's runner; distinct non-trivial = distinct (command, file, index) invocations",
     }
     return {"level": LEVEL, "tally": tally, "coverage": coverage,
